@@ -587,6 +587,31 @@ def all_filters(pm):
             nonblank = cset([[0x21, 0xD7FF], [0xE000, 0x10FFFF]])
             f = seq(trim, plus(nonblank), trim)
             fl.append((("literal", "number"), (lambda e, f=f: and_(e, f)), "Literal::Int/Float: parse of the trimmed span"))
+    # character validators, per call site: the span of the rule(s) the validated text comes from must not contain a
+    # rejected character (outside what a trim removed first)
+    for vs in getattr(pm, "vsites", None) or []:
+        short = vs["validator"].rsplit("::", 1)[1]
+        if vs["rules"] is None:
+            raise Unsupported("`%s` is applied in `%s` to a text (`%s`) whose grammar rule could not be determined: which valid "
+                              "queries it rejects is unknown" % (short, vs["fn"], vs["arg"]))
+        if vs["reject"] is None:
+            raise Unsupported("the characters rejected by `%s` could not be read" % short)
+        inner = not_(seq(anystar(), cset(vs["reject"]), anystar()))
+        lead = [ws_set(cs) for side, cs in vs["trims"] if side in ("both", "start")]
+        trail = [ws_set(cs) for side, cs in vs["trims"] if side in ("both", "end")]
+        f = seq(star(alt(*lead)) if lead else eps(), inner, star(alt(*trail)) if trail else eps())
+        for r in vs["rules"]:
+            fl.append(((r,), (lambda e, f=f: and_(e, f)), "%s on the span of %s (in %s)" % (short, r, vs["fn"].rsplit("::", 1)[1])))
+    # text gates (parse_string): the span must be one of the accepted texts
+    for g in getattr(pm, "gates", None) or []:
+        short = g["fn"].rsplit("::", 1)[1]
+        if g["contexts"] is None:
+            raise Unsupported("`%s` accepts or rejects a text whose grammar rule could not be determined" % short)
+        lead = [ws_set(cs) for side, cs in g["trims"] if side in ("both", "start")]
+        trail = [ws_set(cs) for side, cs in g["trims"] if side in ("both", "end")]
+        f = seq(star(alt(*lead)) if lead else eps(), g["accept"], star(alt(*trail)) if trail else eps())
+        for c in g["contexts"]:
+            fl.append((tuple(c), (lambda e, f=f: and_(e, f)), "%s accepts the span of %s" % (short, "/".join(c))))
     # P4
     if pm.p4 and pm.p4.get("unknown"):
         raise Unsupported(pm.p4["unknown"])
@@ -1097,6 +1122,8 @@ def analyse(prog, grammar, tier="quick"):
             return json.load(fh)
     DEFS.clear()
     pm = ParserModel(prog)
+    pm.vsites = pm.extract_validator_sites(grammar)
+    pm.gates = pm.extract_text_gates(grammar)
     comp = Comparison(prog, grammar, pm, ABNF_PATH)
     spec = comp.build()
     # every Normalized Path must be accepted by the parser (C09: a path that a query returns can be handed to reference())
@@ -1124,6 +1151,23 @@ def analyse(prog, grammar, tier="quick"):
                     oid = "%s|%s|%s" % (rname, pest_text(alts[i]), pest_text(alts[j]))
                     overlaps.append({"id": oid, "a": exprs[i], "b": exprs[j]})
                     meta.append({"id": oid, "rule": rname, "first": pest_text(alts[i]), "second": pest_text(alts[j])})
+                    # the recursion knots are opaque symbols in these expressions: also compare with each knot unfolded once
+                    # (its body, inner knots opaque again) on either side - every unfolding is a real derivation, so an
+                    # overlap found this way is a real one (the converse does not hold: deeper overlaps are not searched)
+                    for kn, sym in (("Q", Q), ("L", L), ("F", F)):
+                        for side in (0, 1):
+                            src = exprs[i] if side == 0 else exprs[j]
+                            un = None
+                            for sy in (sym, ATOMIC_VARIANT[sym]):
+                                body = comp.impl.get(kn + "@atomic" if sy != sym and kn + "@atomic" in comp.impl else kn)
+                                u2 = _subst_symbol(un if un is not None else src, sy, body)
+                                if u2 is not None:
+                                    un = u2
+                            if un is None:
+                                continue
+                            oid2 = "%s|unfold:%s:%d" % (oid, kn, side)
+                            overlaps.append({"id": oid2, "a": un if side == 0 else exprs[i], "b": exprs[j] if side == 0 else un})
+                            meta.append({"id": oid2, "rule": rname, "first": pest_text(alts[i]), "second": pest_text(alts[j]), "unfolded": kn})
     # greedy-repetition hazards: the continuation expressions make the automata too large as built (16 GB, no result after
     # 30 min); kept behind a switch until the queries are made tractable
     rep_pairs, rep_meta = repetition_hazards(grammar, model) if os.environ.get("VF_REP_HAZARDS") == "1" else ([], [])
@@ -1157,7 +1201,7 @@ def analyse(prog, grammar, tier="quick"):
         "parser_notes": pm.notes,
         "slots": pm.slots,
         "ops": pm.ops,
-        "p1": pm.p1, "seg": pm.seg, "p4": pm.p4, "ctrl": pm.ctrl,
+        "p1": pm.p1, "seg": pm.seg, "p4": pm.p4, "ctrl": pm.ctrl, "vsites": pm.vsites, "gates": [{k: v for k, v in g.items() if k != "accept"} for g in pm.gates],
         "abnf_selfcheck": {"n": n, "bad": bad},
         "predicates_dropped": sorted(set(model.predicates_dropped)),
         "defs": len(DEFS),
@@ -1211,3 +1255,97 @@ def divergences(result):
             if cur is None or len(w) < len(cur["cps"]):
                 out[k] = {"witness": show_witness(w), "cps": w, "where": cmp_["id"], "at": at, "blank_related": blank}
     return out
+
+
+# ------------------------------------------------------------------------------------------------ shadowed alternatives
+def dead_alternatives(rules):
+    """Ordered choices in which a later alternative can never be chosen because an earlier alternative derives it as a
+    whole (through choices, rule references, optional/repeated parts and sequences whose other parts can match the empty
+    string): whatever the later alternative matches, the earlier one matches first - PEG never backtracks into the later
+    one.  `rules`: {name: {"ty", "expr"}} (pest's optimised AST).  -> [(rule, earlier text, later text, derivation path)]
+    Lookahead predicates count as non-empty (no claim through them), so every report is a definite shadowing."""
+
+    def nullable(e, stack=()):
+        k = e["k"]
+        if k in ("str", "insens"):
+            return len(e["v"]) == 0
+        if k == "ident":
+            n = e["v"]
+            if n in ("SOI", "EOI"):
+                return True
+            if n not in rules or n in stack:
+                return False
+            return nullable(rules[n]["expr"], stack + (n,))
+        if k in ("opt", "rep"):
+            return True
+        if k == "seq":
+            return nullable(e["a"], stack) and nullable(e["b"], stack)
+        if k == "choice":
+            return nullable(e["a"], stack) or nullable(e["b"], stack)
+        if k == "rep1":
+            return nullable(e["e"], stack)
+        if k == "repn":
+            return e.get("min", 0) == 0 or nullable(e["e"], stack)
+        if k == "push":
+            return nullable(e["e"], stack)
+        return False
+
+    def same(a, b):
+        return json.dumps(a, sort_keys=True) == json.dumps(b, sort_keys=True)
+
+    def derives(e, target, stack=()):
+        """path (list of rule names) if e =>* target with everything else empty, else None"""
+        if same(e, target):
+            return []
+        k = e["k"]
+        if k == "ident":
+            n = e["v"]
+            if n not in rules or n in stack:
+                return None
+            r = derives(rules[n]["expr"], target, stack + (n,))
+            return None if r is None else [n] + r
+        if k == "choice":
+            for s in (e["a"], e["b"]):
+                r = derives(s, target, stack)
+                if r is not None:
+                    return r
+            return None
+        if k == "seq":
+            if nullable(e["b"]):
+                r = derives(e["a"], target, stack)
+                if r is not None:
+                    return r
+            if nullable(e["a"]):
+                return derives(e["b"], target, stack)
+            return None
+        if k in ("opt", "rep", "rep1", "push"):
+            return derives(e["e"], target, stack)
+        if k == "repn":
+            if e.get("min", 0) <= 1 and (e.get("max", -1) == -1 or e.get("max", -1) >= 1):
+                return derives(e["e"], target, stack)
+        return None
+
+    out = []
+    for rname, r in rules.items():
+        if rname in ("WHITESPACE", "COMMENT"):
+            continue
+        for node, _path in _choice_nodes(r["expr"]):
+            alts = alternatives_of(node)
+            for i in range(len(alts)):
+                for j in range(i + 1, len(alts)):
+                    if same(alts[i], alts[j]):
+                        out.append((rname, pest_text(alts[i]), pest_text(alts[j]), ["(identical)"]))
+                        continue
+                    p = derives(alts[i], alts[j], (rname,))
+                    if p is not None:
+                        out.append((rname, pest_text(alts[i]), pest_text(alts[j]), p))
+    return out
+
+
+def dead_alternatives_control():
+    """a three-rule grammar in which the second alternative is shadowed: must be reported"""
+    I = lambda n: {"k": "ident", "v": n}
+    rules = {"a": {"ty": "normal", "expr": {"k": "choice", "a": I("b"), "b": I("c")}},
+             "b": {"ty": "normal", "expr": {"k": "seq", "a": {"k": "opt", "e": {"k": "str", "v": "!"}}, "b": {"k": "seq", "a": I("c"), "b": {"k": "rep", "e": {"k": "str", "v": " "}}}}},
+             "c": {"ty": "normal", "expr": {"k": "str", "v": "x"}}}
+    return [d[:3] for d in dead_alternatives(rules)] == [("a", "b", "c")]
